@@ -323,33 +323,15 @@ pub(crate) async fn run_command_loop(
     }
   }
 
-  // 2. Answer the commands that were queued behind the shutdown: their callers are awaiting a reply,
-  //    and a queued command (with its reply sender) is not dropped along with the receiver as long as
-  //    any socket handle keeps the mailbox alive. Then close the mailbox so that later calls fail at once.
-  while let Ok(cmd) = command_receiver.try_recv() {
-    tracing::debug!(handle = core_handle, cmd = %cmd.variant_name(), "Answering command queued behind the shutdown.");
-    match cmd {
-      Command::UserClose { reply_tx } => {
-        let _ = reply_tx.send(Ok(()));
-      }
-      Command::UserBind { reply_tx, .. }
-      | Command::UserConnect { reply_tx, .. }
-      | Command::UserDisconnect { reply_tx, .. }
-      | Command::UserUnbind { reply_tx, .. }
-      | Command::UserSetOpt { reply_tx, .. }
-      | Command::UserMonitor { reply_tx, .. } => {
-        let _ = reply_tx.send(Err(ZmqError::InvalidState("Socket is closed".into())));
-      }
-      Command::UserGetOpt { reply_tx, .. } => {
-        let _ = reply_tx.send(Err(ZmqError::InvalidState("Socket is closed".into())));
-      }
-      Command::UserRecv { reply_tx, .. } => {
-        let _ = reply_tx.send(Err(ZmqError::InvalidState("Socket is closed".into())));
-      }
-      _ => {} // no reply channel
+  // 2. Nobody processes commands any more, but the socket's handles can still send some (a close() racing
+  //    with term(), a second close(), a bind() on a closed socket), and a queued command - with its reply
+  //    sender - is not dropped with the receiver as long as any handle keeps the mailbox alive. Answer what is
+  //    queued and whatever still arrives, until the last handle is gone.
+  tokio::spawn(async move {
+    while let Ok(cmd) = command_receiver.recv().await {
+      answer_command_after_close(cmd);
     }
-  }
-  drop(command_receiver);
+  });
 
   // If loop exited due to an error that wasn't already part of a graceful shutdown,
   // ensure shutdown is initiated and as much cleanup as possible happens.
@@ -412,4 +394,28 @@ pub(crate) async fn run_command_loop(
       socket_type = ?socket_type_for_log,
       "SocketCore actor task FULLY STOPPED."
   );
+}
+
+/// Reply to a command that reached a socket whose command loop has ended.
+fn answer_command_after_close(cmd: Command) {
+  match cmd {
+    Command::UserClose { reply_tx } => {
+      let _ = reply_tx.send(Ok(()));
+    }
+    Command::UserBind { reply_tx, .. }
+    | Command::UserConnect { reply_tx, .. }
+    | Command::UserDisconnect { reply_tx, .. }
+    | Command::UserUnbind { reply_tx, .. }
+    | Command::UserSetOpt { reply_tx, .. }
+    | Command::UserMonitor { reply_tx, .. } => {
+      let _ = reply_tx.send(Err(ZmqError::InvalidState("Socket is closed".into())));
+    }
+    Command::UserGetOpt { reply_tx, .. } => {
+      let _ = reply_tx.send(Err(ZmqError::InvalidState("Socket is closed".into())));
+    }
+    Command::UserRecv { reply_tx, .. } => {
+      let _ = reply_tx.send(Err(ZmqError::InvalidState("Socket is closed".into())));
+    }
+    _ => {} // no reply channel
+  }
 }
